@@ -48,7 +48,7 @@ STACKS = [[0, 90, 90, 0], [0, 90, -45, 45], [45, -45, 0, 90, 30], [0], [30, -30,
 
 PANEL_OPS = ['k0', 'k0', 'kG0', 'kM', 'kA', 'cA', 'kT', 'fint', 'fext', 'lb', 'lb_dense', 'freq', 'freq_dense', 'static',
              'static_nl', 'uvw', 'strain', 'stress', 'plot', 'save_load', 'get_size', 'set_cores', 'k0_c', 'kG0_c',
-             'mod_lb', 'mod_freq', 'mod_static', 'lb_c', 'k0_F', 'kT_F', 'fint_F', 'lb_cF']
+             'mod_lb', 'mod_freq', 'mod_static', 'lb_c', 'k0_F', 'kT_F', 'fint_F', 'lb_cF', 'redef']
 ASM_OPS = ['k0', 'k0', 'kG0', 'kG0', 'kM', 'kM', 'kT', 'kT', 'fint', 'fext', 'fext', 'uvw', 'strain', 'stress', 'k0_conn', 'uvw', 'strain', 'stress', 'set_cores', 'get_size',
            'mod_lb', 'mod_freq', 'mod_static', 'panel_k0', 'plot', 'an_static', 'an_static_nl', 'panel_kM', 'panel_fext']
 BAY_OPS = ['k0', 'k0', 'kG0', 'kM', 'kA', 'cA', 'fext', 'uvw_skin', 'uvw_stiffener', 'get_size', 'set_cores',
@@ -107,7 +107,8 @@ def gen_ops(rng, menu, nmin=5, nmax=30, heavy=()):
         op = {'op': name, 'ci': rng.randrange(2), 'pi': rng.randrange(2), 'ii': rng.randrange(2),
               'nl': rng.random() < 0.5, 'k': rng.choice([1, 2, 3, 5, 8, 16]),
               'vec': rng.choice(['w', 'u', 'exx', 'Nxx', 'kxy']), 'atype': rng.choice([4, 4, 3]),
-              'si': rng.randrange(3), 'region': rng.choice(['flange', 'base']), 'pidx': rng.randrange(4)}
+              'si': rng.randrange(3), 'region': rng.choice(['flange', 'base']), 'pidx': rng.randrange(4),
+              'attr': rng.choice(['Nxx', 'Nyy', 'Nxy', 'mu', 'a', 'b', 'offset', 'flag', 'plyt', 'Nxx_cte']), 'val': rng.uniform(0.3, 2.5)}
         if name not in ('set_cores', 'set_ni_cores', 'save_load', 'get_size') and rng.random() < 0.07:
             # transient allocation failure: the j-th call of an internal building block (laminate construction,
             # connection constants/kernels, matrix symmetrisation, linear-matrix set-up) raises MemoryError
@@ -287,6 +288,41 @@ def apply_panel_def(p, d):
     p.analysis.minInc = 0.05
     p.analysis.maxNumIter = 8
     return p
+
+
+def apply_redefinition(p, d, op):
+    """change one definition attribute consistently on the long-lived Panel and in the definition dict"""
+    a, v = op['attr'], op['val']
+    if a in ('Nxx', 'Nyy', 'Nxy', 'Nxx_cte'):
+        d[a] = -v * 10.0
+        setattr(p, a, d[a])
+    elif a == 'mu':
+        d['mu'] = 1.3e3 * v
+        p.mu = d['mu']
+    elif a in ('a', 'b'):
+        scale = d[a] * v / d[a]
+        d['forces'] = [[f[0], f[1]] + f[2:] for f in d['forces']]
+        d[a] = d[a] * v
+        setattr(p, a, d[a])
+        # forces are stored in absolute coordinates on the object: keep them at the same relative position
+        p.forces = [[f[0] * d['a'], f[1] * d['b']] + f[2:] for f in d['forces']]
+        p.forces_inc = [[f[0] * d['a'], f[1] * d['b']] + f[2:] for f in d['forces_inc']]
+    elif a == 'offset':
+        d['offset'] = (v - 1.0) * 2e-4
+        p.offset = d['offset']
+    elif a == 'flag':
+        f = FLAGS[int(v * 1000) % len(FLAGS)]
+        d['flags'] = dict(d['flags'])
+        d['flags'][f] = 0.0 if d['flags'].get(f, getattr(p, f)) else 1.0
+        setattr(p, f, d['flags'][f])
+    elif a == 'plyt':
+        d['plyt'] = 1.25e-4 * v
+        if d.get('per_ply'):
+            p.plyts = [d['plyt'] for _ in d['stack']]
+        else:
+            p.plyt = d['plyt']
+            p.plyts = None          # the per-ply list is derived from plyt: a consistent re-definition resets it
+    return d
 
 
 def panel_size(d):
@@ -878,10 +914,12 @@ def op_key(kind, op):
         parts += ['c%d' % op['ci'], 's%d' % op['si'], op['region']]
     if name in ('set_cores', 'set_ni_cores'):
         parts.append(str(op['k']))
+    if name == 'redef':
+        parts.append(op['attr'])
     return '/'.join(parts)
 
 
-NO_COMPARE = ('set_cores', 'set_ni_cores', 'save_load')
+NO_COMPARE = ('set_cores', 'set_ni_cores', 'save_load', 'redef')
 THREAD_SENSITIVE_SHELL = ('kT', 'fint', 'static_nl')
 
 
@@ -1150,6 +1188,19 @@ def execute(scen):
                     except Exception as e:
                         bump(res['exceptions'], 'save_load_' + type(e).__name__)
                 log.add(idx, key, 'save_load')
+                prev_ops.append(name)
+                continue
+            if name == 'redef':
+                # the client re-defines one attribute of a Panel (a class that advertises no caches): from here on the
+                # reference is a fresh object built from the NEW definition
+                if kind == 'panel':
+                    import copy as _copy
+                    d = _copy.deepcopy(d)
+                    apply_redefinition(subject, d, op)
+                    refs = {}
+                    seen = {}
+                    bump(res['probes'], 'redefinition_' + op['attr'])
+                log.add(idx, key, 'redef')
                 prev_ops.append(name)
                 continue
             out = outcome_of(kind, subject, op, env_s, d, seam, key, fault=op.get('fault'))
